@@ -16,6 +16,7 @@
 #   limitations under the License.
 #
 import functools
+import re
 import itertools
 
 from warnings import warn
@@ -326,6 +327,9 @@ class SmtLibParser(object):
     char-by-char with no buffering. This is useful for interactive use
     for example with a SMT-Lib2-compliant solver
     """
+
+    # SMT-LIB numerals and decimals
+    _NUMERAL_OR_DECIMAL = re.compile(r"^(0|[1-9][0-9]*)(\.[0-9]+)?$")
 
     def __init__(self, environment: Optional[Environment]=None, interactive: bool=False):
         self.env = get_env() if environment is None else environment
@@ -710,6 +714,10 @@ class SmtLibParser(object):
             else:
                 # it could be a number or a string
                 try:
+                    if SmtLibParser._NUMERAL_OR_DECIMAL.match(token) is None:
+                        # Fraction() accepts more than SMT-LIB numerals
+                        # and decimals (e.g., 1/2, 1e3, 1_0, +3)
+                        raise ValueError(token)
                     frac = Fraction(token)
                     if frac.denominator == 1:
                         # We found an integer, depending on the logic this can be
